@@ -91,23 +91,31 @@ Proof.
     destruct (H _ _ _ E) as [H1 H2]. apply Nat.eqb_neq in H1, H2. now rewrite H1, H2.
 Qed.
 
-Lemma noreg_spec l t' :
-  existsb (fun st => match st with TReg t2 _ => t2 =? t' | _ => false end) l = false ->
-  forall j s2, get l j <> TReg t' s2.
+Lemma owner_of_spec l t s : forall i0 j,
+  (forall a b t1 s1 t2 s2, a <> b -> live (get l a) = Some (t1, s1) -> live (get l b) = Some (t2, s2) -> t1 <> t2) ->
+  live (get l j) = Some (t, s) -> owner_of l t s i0 = i0 + j.
 Proof.
-  intros H j s2 E.
-  assert (Hr : j < length l) by (apply get_in_range; rewrite E; discriminate).
-  assert (Hex : existsb (fun st => match st with TReg t2 _ => t2 =? t' | _ => false end) l = true).
-  { apply existsb_exists. exists (get l j). split; [now apply get_In|]. rewrite E. apply Nat.eqb_refl. }
-  congruence.
+  induction l as [|st r IH]; intros i0 j Hd Hj.
+  - unfold get in Hj. destruct j; discriminate.
+  - cbn [owner_of]. destruct j as [|j].
+    + unfold get in Hj. cbn in Hj. rewrite Hj, !Nat.eqb_refl. cbn. lia.
+    + destruct (live st) as [[t2 s2]|] eqn:E.
+      * destruct (Nat.eqb_spec t2 t) as [->|Hne]; cbn [andb].
+        -- exfalso. apply (Hd 0 (S j) t s2 t s); auto.
+        -- rewrite (IH (S i0) j); [lia| |exact Hj].
+           intros a b t1 s1 t3 s3 Hab Ha Hb. apply (Hd (S a) (S b) t1 s1 t3 s3); auto.
+      * rewrite (IH (S i0) j); [lia| |exact Hj].
+        intros a b t1 s1 t3 s3 Hab Ha Hb. apply (Hd (S a) (S b) t1 s1 t3 s3); auto.
 Qed.
 
 (** ---- the invariant ---- *)
 Definition holder (st : tstate) : Prop :=
-  match st with TRecv _ _ | TLooked _ _ _ _ => True | _ => False end.
+  match st with TRecv _ _ | TLooked _ _ _ _ _ => True | _ => False end.
 
-Definition routed (t s : nat) (r : res) : Prop :=
-  match r with ROk t' s' => t' = t /\ s' = s | RFail => True end.
+(** a result for call i holding tag t and slot s: the frame carried t, was decoded into slot s's
+    message, and that slot was held by call i itself when the frame was accepted *)
+Definition routed (i t s : nat) (r : res) : Prop :=
+  match r with ROk t' s' o => t' = t /\ s' = s /\ o = i | RFail => True end.
 
 Record Inv (m : mst) : Prop := {
   (* running calls hold pairwise distinct tags and pairwise distinct response slots *)
@@ -118,17 +126,19 @@ Record Inv (m : mst) : Prop := {
   I_pend : forall t s, In (t, s) (pend m) -> full m s = None /\ exists i, live (get (thr m) i) = Some (t, s);
   (* a running call is pending, or its done channel holds ITS result *)
   I_live : forall i t s, live (get (thr m) i) = Some (t, s) ->
-      In (t, s) (pend m) \/ exists r, full m s = Some r /\ routed t s r;
+      In (t, s) (pend m) \/ exists r, full m s = Some r /\ routed i t s r;
   (* a full done channel belongs to a running call *)
   I_full : forall s r, full m s = Some r -> exists i t, live (get (thr m) i) = Some (t, s);
   I_tok_free : token m = false -> forall i, ~ holder (get (thr m) i);
   I_tok_uniq : forall i j, holder (get (thr m) i) -> holder (get (thr m) j) -> i = j;
   I_tok_held : token m = true -> exists i, holder (get (thr m) i);
-  (* between lookup and completion the entry stays, and its owner has sent its request *)
-  I_looked : forall i t s t' s', get (thr m) i = TLooked t s t' s' ->
-      In (t', s') (pend m) /\ forall j s2, get (thr m) j <> TReg t' s2;
+  (* a slot withdrawn after a failed send is never held again *)
+  I_retired : forall i t s, live (get (thr m) i) = Some (t, s) -> ~ In s (retired m);
+  (* between lookup and completion: the slot found was withdrawn for good, or call o' still holds it and is still pending *)
+  I_looked : forall i t s t' s' o', get (thr m) i = TLooked t s t' s' o' ->
+      In s' (retired m) \/ (live (get (thr m) o') = Some (t', s') /\ In (t', s') (pend m));
   I_good : forall i, get (thr m) i <> TBlocked /\ get (thr m) i <> TPanic;
-  I_done : forall i t s r, get (thr m) i = TDone t s r -> routed t s r
+  I_done : forall i t s r, get (thr m) i = TDone t s r -> routed i t s r
 }.
 
 Lemma inv_init n : Inv (init n).
@@ -137,7 +147,7 @@ Proof.
   { intros i. unfold get. destruct (Nat.lt_ge_cases i (length (repeat TIdle n))).
     - apply (repeat_spec n TIdle). now apply nth_In.
     - now apply nth_overflow. }
-  unfold init. constructor; cbn [thr pend full token]; intros; rewrite ?Hg in *; cbn in *;
+  unfold init. constructor; cbn [thr pend full token retired]; intros; rewrite ?Hg in *; cbn in *;
     try discriminate; try tauto; try constructor; try congruence.
 Qed.
 
@@ -146,33 +156,29 @@ Proof.
   intros H. destruct (Nat.eqb_spec j i) as [->|Hne]; [now apply get_upd_same|now apply get_upd_other].
 Qed.
 
-Ltac split_idx :=
-  repeat match goal with
-         | H : context [?a =? ?b] |- _ => destruct (Nat.eqb_spec a b); subst
-         | |- context [?a =? ?b] => destruct (Nat.eqb_spec a b); subst
-         end.
-
 Lemma live_upd l i x j : i < length l ->
   live (get (upd l i x) j) = if j =? i then live x else live (get l j).
 Proof. intros H. rewrite get_upd by auto. now destruct (j =? i). Qed.
 
-(** thread i moves between two states that hold the same tag and slot; pending and done untouched *)
-Lemma inv_same_live m i x y tok :
+Lemma live_not_idle st p : live st = Some p -> st <> TIdle.
+Proof. destruct st; cbn; congruence. Qed.
+
+(** thread i moves between two states that hold the same tag and slot; pending, done, retired untouched *)
+Lemma inv_same_live m i x y tok d :
   Inv m -> get (thr m) i = x -> live y = live x -> x <> TIdle ->
-  (forall t s t' s', y = TLooked t s t' s' ->
-      In (t', s') (pend m) /\ forall j s2, get (thr m) j <> TReg t' s2) ->
-  (forall t s, y <> TReg t s) -> y <> TBlocked -> y <> TPanic -> (forall t s r, y <> TDone t s r) ->
-  (* token bookkeeping *)
+  (forall t s t' s' o', y = TLooked t s t' s' o' ->
+      In s' (retired m) \/ (live (get (thr m) o') = Some (t', s') /\ In (t', s') (pend m))) ->
+  y <> TBlocked -> y <> TPanic -> (forall t s r, y <> TDone t s r) ->
   (tok = false -> ~ holder y /\ forall j, holder (get (thr m) j) -> j = i) ->
   (holder y -> forall j, holder (get (thr m) j) -> j = i) ->
   (tok = true -> holder y \/ exists j, j <> i /\ holder (get (thr m) j)) ->
-  Inv (mkst (upd (thr m) i y) (pend m) (full m) tok).
+  Inv (mkst (upd (thr m) i y) (pend m) (full m) tok (retired m) d).
 Proof.
-  intros HI Hi Hl Hx Hlook Hreg Hb Hp Hd Ht1 Ht2 Ht3.
+  intros HI Hi Hl Hx Hlook Hb Hp Hd Ht1 Ht2 Ht3.
   assert (Hr : i < length (thr m)) by (apply get_in_range; congruence).
   assert (HL : forall j, live (get (upd (thr m) i y) j) = live (get (thr m) j)).
   { intros j. rewrite live_upd by auto. destruct (Nat.eqb_spec j i) as [->|]; auto. congruence. }
-  destruct HI. constructor; cbn [thr pend full token].
+  destruct HI. constructor; cbn [thr pend full token retired].
   - intros a b t s t2 s2 Hab. rewrite !HL. eauto.
   - auto.
   - intros t s Hin. destruct (I_pend0 _ _ Hin) as [A [j B]]. split; auto. exists j. now rewrite HL.
@@ -189,24 +195,20 @@ Proof.
   - intros Htok. destruct (Ht3 Htok) as [A|(j & Hj & A)].
     + exists i. now rewrite get_upd_same.
     + exists j. now rewrite get_upd_other.
-  - intros a t s t' s'. rewrite get_upd by auto. destruct (Nat.eqb_spec a i) as [->|Hne].
-    + intros Hy. destruct (Hlook _ _ _ _ Hy) as [A B]. split; auto.
-      intros j s2. rewrite get_upd by auto. destruct (Nat.eqb_spec j i); auto.
-    + intros Ha. destruct (I_looked0 _ _ _ _ _ Ha) as [A B]. split; auto.
-      intros j s2. rewrite get_upd by auto. destruct (Nat.eqb_spec j i); auto.
+  - intros a t s. rewrite HL. apply I_retired0.
+  - intros a t s t' s' o'. rewrite get_upd by auto. rewrite HL. destruct (Nat.eqb_spec a i) as [->|Hne].
+    + intros Hy. exact (Hlook _ _ _ _ _ Hy).
+    + intros Ha. exact (I_looked0 _ _ _ _ _ _ Ha).
   - intros a. rewrite get_upd by auto. destruct (Nat.eqb_spec a i); auto.
   - intros a t s r. rewrite get_upd by auto. destruct (Nat.eqb_spec a i); [intros E; exfalso; eapply Hd; eauto|eauto].
 Qed.
 
-Lemma live_not_idle st p : live st = Some p -> st <> TIdle.
-Proof. destruct st; cbn; congruence. Qed.
-
 (** ---- AStart ---- *)
 Lemma step_start m i t s :
-  Inv m -> get (thr m) i = TIdle -> i < length (thr m) -> fresh (thr m) t s = true ->
-  Inv (mkst (upd (thr m) i (TReg t s)) ((t, s) :: remove t (pend m)) (full m) (token m)).
+  Inv m -> get (thr m) i = TIdle -> i < length (thr m) -> fresh (thr m) t s = true -> ~ In s (retired m) ->
+  Inv (mkst (upd (thr m) i (TReg t s)) ((t, s) :: remove t (pend m)) (full m) (token m) (retired m) (dead m)).
 Proof.
-  intros HI Hi Hr Hf. rewrite fresh_spec in Hf. destruct HI.
+  intros HI Hi Hr Hf Hnr. rewrite fresh_spec in Hf. destruct HI.
   assert (F1 : forall t0 s0, In (t0, s0) (pend m) -> t0 <> t).
   { intros t0 s0 Hin. destruct (I_pend0 _ _ Hin) as [_ [j B]]. now destruct (Hf _ _ _ B). }
   assert (F2 : full m s = None).
@@ -215,7 +217,7 @@ Proof.
   { intros j. now rewrite live_upd. }
   assert (Hidle : forall j p, live (get (thr m) j) = Some p -> j <> i).
   { intros j p Hj ->. rewrite Hi in Hj. discriminate. }
-  constructor; cbn [thr pend full token].
+  constructor; cbn [thr pend full token retired].
   - intros a b t1 s1 t2 s2 Hab. rewrite !HL.
     destruct (Nat.eqb_spec a i) as [->|Ha], (Nat.eqb_spec b i) as [->|Hb]; try congruence.
     + intros E1 E2. inversion E1; subst. destruct (Hf _ _ _ E2). split; congruence.
@@ -239,16 +241,18 @@ Proof.
     destruct (Nat.eqb_spec a i), (Nat.eqb_spec b i); cbn; try tauto. apply I_tok_uniq0.
   - intros Htok. destruct (I_tok_held0 Htok) as [j B]. exists j. rewrite get_upd by auto.
     destruct (Nat.eqb_spec j i) as [->|]; auto. rewrite Hi in B. destruct B.
-  - intros a t0 s0 t' s'. rewrite get_upd by auto. destruct (Nat.eqb_spec a i); [discriminate|].
-    intros E. destruct (I_looked0 _ _ _ _ _ E) as [A B]. split.
+  - intros a t0 s0. rewrite HL. destruct (Nat.eqb_spec a i) as [->|Ha].
+    + intros E; inversion E; subst. exact Hnr.
+    + apply I_retired0.
+  - intros a t0 s0 t' s' o'. rewrite get_upd by auto. destruct (Nat.eqb_spec a i); [discriminate|].
+    intros E. destruct (I_looked0 _ _ _ _ _ _ E) as [A|[A B]]; [now left|right]. split.
+    + rewrite HL. destruct (Nat.eqb_spec o' i) as [->|]; auto. exfalso. eapply Hidle; eauto.
     + right. apply In_remove. split; auto. eapply F1; eauto.
-    + intros j s2. rewrite get_upd by auto. destruct (Nat.eqb_spec j i); auto.
-      intros E2. inversion E2; subst. eapply F1; eauto.
   - intros a. rewrite get_upd by auto. destruct (Nat.eqb_spec a i); auto. split; discriminate.
   - intros a t0 s0 r. rewrite get_upd by auto. destruct (Nat.eqb_spec a i); [discriminate|eauto].
 Qed.
 
-(** ---- ASendFail (with the withdrawal of commit dca25c9) ---- *)
+(** ---- ASendFail: withdrawal (dca25c9) and retirement of the slot (79e8d00) ---- *)
 Lemma step_sendfail m i t s :
   Inv m -> get (thr m) i = TReg t s ->
   Inv (mkst (upd (thr m) i (TDone t s RFail))
@@ -256,7 +260,7 @@ Lemma step_sendfail m i t s :
              | Some s' => if s' =? s then remove t (pend m) else pend m
              | None => pend m
              end)
-            (fset (full m) s None) (token m)).
+            (fset (full m) s None) (token m) (s :: retired m) (dead m)).
 Proof.
   intros HI Hi.
   assert (Hr : i < length (thr m)) by (apply get_in_range; rewrite Hi; discriminate).
@@ -275,7 +279,7 @@ Proof.
   clearbody p'.
   assert (HL : forall j, live (get (upd (thr m) i (TDone t s RFail)) j) = if j =? i then None else live (get (thr m) j)).
   { intros j. now rewrite live_upd. }
-  constructor; cbn [thr pend full token].
+  constructor; cbn [thr pend full token retired].
   - intros a b t1 s1 t2 s2 Hab. rewrite !HL.
     destruct (Nat.eqb_spec a i), (Nat.eqb_spec b i); try discriminate. eauto.
   - auto.
@@ -297,10 +301,17 @@ Proof.
     destruct (Nat.eqb_spec a i), (Nat.eqb_spec b i); cbn; try tauto. apply I_tok_uniq0.
   - intros Htok. destruct (I_tok_held0 Htok) as [j B]. exists j. rewrite get_upd by auto.
     destruct (Nat.eqb_spec j i) as [->|]; auto. rewrite Hi in B. destruct B.
-  - intros a t0 s0 t' s'. rewrite get_upd by auto. destruct (Nat.eqb_spec a i); [discriminate|].
-    intros E. destruct (I_looked0 _ _ _ _ _ E) as [A B]. split.
-    + apply Hp. split; auto. intros ->. eapply B; eauto.
-    + intros j s2. rewrite get_upd by auto. destruct (Nat.eqb_spec j i); [discriminate|auto].
+  - intros a t0 s0. rewrite HL. destruct (Nat.eqb_spec a i) as [->|Ha]; [discriminate|].
+    intros E [Hs|Hin].
+    + destruct (I_distinct0 _ _ _ _ _ _ Ha E Hli); congruence.
+    + eapply I_retired0; eauto.
+  - intros a t0 s0 t' s' o'. rewrite get_upd by auto. destruct (Nat.eqb_spec a i); [discriminate|].
+    intros E. destruct (I_looked0 _ _ _ _ _ _ E) as [A|[A B]]; [left; now right|].
+    destruct (Nat.eq_dec o' i) as [->|Ho].
+    + rewrite Hli in A. inversion A; subst. left. now left.
+    + right. split.
+      * rewrite HL. destruct (Nat.eqb_spec o' i); [congruence|auto].
+      * apply Hp. split; auto. destruct (I_distinct0 _ _ _ _ _ _ Ho A Hli); auto.
   - intros a. rewrite get_upd by auto. destruct (Nat.eqb_spec a i); auto. split; discriminate.
   - intros a t0 s0 r. rewrite get_upd by auto. destruct (Nat.eqb_spec a i); [|eauto].
     intros E; inversion E; subst. exact I.
@@ -309,7 +320,7 @@ Qed.
 (** ---- AWaitDone ---- *)
 Lemma step_waitdone m i t s r :
   Inv m -> get (thr m) i = TWait t s -> full m s = Some r ->
-  Inv (mkst (upd (thr m) i (TDone t s r)) (pend m) (fset (full m) s None) (token m)).
+  Inv (mkst (upd (thr m) i (TDone t s r)) (pend m) (fset (full m) s None) (token m) (retired m) (dead m)).
 Proof.
   intros HI Hi Hfull.
   assert (Hr : i < length (thr m)) by (apply get_in_range; rewrite Hi; discriminate).
@@ -317,7 +328,7 @@ Proof.
   destruct HI.
   assert (HL : forall j, live (get (upd (thr m) i (TDone t s r)) j) = if j =? i then None else live (get (thr m) j)).
   { intros j. now rewrite live_upd. }
-  constructor; cbn [thr pend full token].
+  constructor; cbn [thr pend full token retired].
   - intros a b t1 s1 t2 s2 Hab. rewrite !HL.
     destruct (Nat.eqb_spec a i), (Nat.eqb_spec b i); try discriminate. eauto.
   - auto.
@@ -337,9 +348,11 @@ Proof.
     destruct (Nat.eqb_spec a i), (Nat.eqb_spec b i); cbn; try tauto. apply I_tok_uniq0.
   - intros Htok. destruct (I_tok_held0 Htok) as [j B]. exists j. rewrite get_upd by auto.
     destruct (Nat.eqb_spec j i) as [->|]; auto. rewrite Hi in B. destruct B.
-  - intros a t0 s0 t' s'. rewrite get_upd by auto. destruct (Nat.eqb_spec a i); [discriminate|].
-    intros E. destruct (I_looked0 _ _ _ _ _ E) as [A B]. split; auto.
-    intros j s2. rewrite get_upd by auto. destruct (Nat.eqb_spec j i); [discriminate|auto].
+  - intros a t0 s0. rewrite HL. destruct (Nat.eqb_spec a i); [discriminate|apply I_retired0].
+  - intros a t0 s0 t' s' o'. rewrite get_upd by auto. destruct (Nat.eqb_spec a i); [discriminate|].
+    intros E. destruct (I_looked0 _ _ _ _ _ _ E) as [A|[A B]]; [now left|right]. split; auto.
+    rewrite HL. destruct (Nat.eqb_spec o' i) as [->|]; auto.
+    exfalso. rewrite Hli in A. inversion A; subst. destruct (I_pend0 _ _ B). congruence.
   - intros a. rewrite get_upd by auto. destruct (Nat.eqb_spec a i); auto. split; discriminate.
   - intros a t0 s0 r0. rewrite get_upd by auto. destruct (Nat.eqb_spec a i); [|eauto].
     intros E; inversion E; subst.
@@ -353,49 +366,68 @@ Lemma no_holder_left m i : Inv m -> holder (get (thr m) i) ->
   forall j, j <> i -> ~ holder (get (thr m) j).
 Proof. intros HI Hh j Hne Hj. apply Hne. eapply I_tok_uniq; eauto. Qed.
 
-(** ---- ABody ok: completion of the call registered for t' ---- *)
-Lemma step_bodyok m i t s t' s' :
-  Inv m -> get (thr m) i = TLooked t s t' s' ->
-  lookup t' (pend m) = Some s' /\ full m s' = None /\
-  Inv (mkst (upd (thr m) i (TWait t s)) (remove t' (pend m)) (fset (full m) s' (Some (ROk t' s'))) false).
+(** ---- ABody ok, pending[t'] is still the slot the lookup found: completion ---- *)
+Lemma step_body_complete m i t s t' s' o' :
+  Inv m -> get (thr m) i = TLooked t s t' s' o' -> lookup t' (pend m) = Some s' ->
+  full m s' = None /\
+  Inv (mkst (upd (thr m) i (TWait t s)) (remove t' (pend m)) (fset (full m) s' (Some (ROk t' s' o'))) false (retired m) (dead m)).
 Proof.
-  intros HI Hi.
+  intros HI Hi Hlk.
   assert (Hr : i < length (thr m)) by (apply get_in_range; rewrite Hi; discriminate).
   assert (Hhold : holder (get (thr m) i)) by (rewrite Hi; exact I).
   pose proof (no_holder_left m i HI Hhold) as Hnh.
   destruct HI.
-  destruct (I_looked0 _ _ _ _ _ Hi) as [Hin Hnoreg].
+  pose proof (lookup_In _ _ _ Hlk) as Hin.
   destruct (I_pend0 _ _ Hin) as [Hempty [jo Hjo]].
-  split; [now apply In_lookup|]. split; [exact Hempty|].
+  assert (Hown : live (get (thr m) o') = Some (t', s')).
+  { destruct (I_looked0 _ _ _ _ _ _ Hi) as [A|[A _]]; auto. exfalso. eapply I_retired0; eauto. }
+  assert (jo = o').
+  { destruct (Nat.eq_dec jo o'); auto. destruct (I_distinct0 _ _ _ _ _ _ n Hjo Hown); congruence. }
+  subst jo. split; [exact Hempty|].
   assert (HL : forall j, live (get (upd (thr m) i (TWait t s)) j) = live (get (thr m) j)).
   { intros j. rewrite live_upd by auto. destruct (Nat.eqb_spec j i) as [->|]; auto. now rewrite Hi. }
-  constructor; cbn [thr pend full token].
+  constructor; cbn [thr pend full token retired].
   - intros a b t1 s1 t2 s2 Hab. rewrite !HL. eauto.
   - now apply NoDup_remove_fst.
   - intros t0 s0 Hin0. apply In_remove in Hin0. destruct Hin0 as [Hin0 Hne].
     destruct (I_pend0 _ _ Hin0) as [A [j B]]. split.
     + unfold fset. destruct (Nat.eqb_spec s0 s') as [->|]; auto.
-      exfalso. assert (j <> jo) by (intros ->; rewrite Hjo in B; congruence).
-      destruct (I_distinct0 _ _ _ _ _ _ H B Hjo); congruence.
+      exfalso. assert (j <> o') by (intros ->; rewrite Hown in B; congruence).
+      destruct (I_distinct0 _ _ _ _ _ _ H B Hown); congruence.
     + exists j. now rewrite HL.
   - intros a t0 s0. rewrite HL. intros E. destruct (I_live0 _ _ _ E) as [Hin0|(r & Hf & Hrt)].
     + destruct (Nat.eq_dec t0 t') as [->|Hne].
-      * right. pose proof (In_lookup _ _ _ I_nodup0 Hin0) as L1. pose proof (In_lookup _ _ _ I_nodup0 Hin) as L2.
+      * right. pose proof (In_lookup _ _ _ I_nodup0 Hin0) as L1.
         assert (s0 = s') by congruence. subst s0.
-        exists (ROk t' s'). split; [|cbn; auto]. unfold fset. now rewrite Nat.eqb_refl.
+        assert (a = o').
+        { destruct (Nat.eq_dec a o'); auto. destruct (I_distinct0 _ _ _ _ _ _ n E Hown); congruence. }
+        subst a. exists (ROk t' s' o'). split; [|cbn; auto]. unfold fset. now rewrite Nat.eqb_refl.
       * left. apply In_remove. auto.
     + right. exists r. split; auto. unfold fset. destruct (Nat.eqb_spec s0 s'); [congruence|auto].
   - intros s0 r. unfold fset. destruct (Nat.eqb_spec s0 s') as [->|].
-    + intros _. exists jo, t'. now rewrite HL.
+    + intros _. exists o', t'. now rewrite HL.
     + intros E. destruct (I_full0 _ _ E) as (j & t0 & B). exists j, t0. now rewrite HL.
   - intros _ a. rewrite get_upd by auto. destruct (Nat.eqb_spec a i); cbn; auto.
   - intros a b. rewrite !get_upd by auto.
     destruct (Nat.eqb_spec a i), (Nat.eqb_spec b i); cbn; try tauto. apply I_tok_uniq0.
   - discriminate.
-  - intros a t0 s0 t1 s1. rewrite get_upd by auto. destruct (Nat.eqb_spec a i); [discriminate|].
+  - intros a t0 s0. rewrite HL. apply I_retired0.
+  - intros a t0 s0 t1 s1 o1. rewrite get_upd by auto. destruct (Nat.eqb_spec a i); [discriminate|].
     intros E. exfalso. apply (Hnh a); auto. rewrite E. exact I.
   - intros a. rewrite get_upd by auto. destruct (Nat.eqb_spec a i); auto. split; discriminate.
   - intros a t0 s0 r. rewrite get_upd by auto. destruct (Nat.eqb_spec a i); [discriminate|eauto].
+Qed.
+
+(** ---- ABody ok, but the entry is gone or belongs to another slot: the frame is dropped ---- *)
+Lemma step_body_drop m i t s t' s' o' :
+  Inv m -> get (thr m) i = TLooked t s t' s' o' ->
+  Inv (mkst (upd (thr m) i (TWait t s)) (pend m) (full m) false (retired m) (dead m)).
+Proof.
+  intros HI Hi.
+  assert (Hhold : holder (get (thr m) i)) by (rewrite Hi; exact I).
+  eapply inv_same_live with (x := TLooked t s t' s' o'); eauto; try (intros; discriminate).
+  - intros _. split; [exact (fun f => f)|]. intros j Hj. eapply I_tok_uniq; eauto.
+  - intros [].
 Qed.
 
 (** ---- broadcast never blocks, and fails every pending call ---- *)
@@ -446,7 +478,7 @@ Proof.
   split; [exact Hchk|]. unfold broadcast. rewrite Hchk.
   assert (HL : forall j, live (get (upd (thr m) i (TWait t s)) j) = live (get (thr m) j)).
   { intros j. rewrite live_upd by auto. destruct (Nat.eqb_spec j i) as [->|]; auto. now rewrite Hi, Hlx. }
-  constructor; cbn [thr pend full token].
+  constructor; cbn [thr pend full token retired].
   - intros a b t1 s1 t2 s2 Hab. rewrite !HL. eauto.
   - constructor.
   - intros t0 s0 [].
@@ -465,34 +497,49 @@ Proof.
   - intros a b. rewrite !get_upd by auto.
     destruct (Nat.eqb_spec a i), (Nat.eqb_spec b i); cbn; try tauto. apply I_tok_uniq0.
   - discriminate.
-  - intros a t0 s0 t1 s1. rewrite get_upd by auto. destruct (Nat.eqb_spec a i); [discriminate|].
+  - intros a t0 s0. rewrite HL. apply I_retired0.
+  - intros a t0 s0 t1 s1 o1. rewrite get_upd by auto. destruct (Nat.eqb_spec a i); [discriminate|].
     intros E. exfalso. apply (Hnh a); auto. rewrite E. exact I.
   - intros a. rewrite get_upd by auto. destruct (Nat.eqb_spec a i); auto. split; discriminate.
   - intros a t0 s0 r. rewrite get_upd by auto. destruct (Nat.eqb_spec a i); [discriminate|eauto].
 Qed.
 
-(** what the broadcast does to the calls that were pending *)
 Lemma broadcast_fails_all m i t s :
   existsb (fun e => is_some (full m (snd e))) (pend m) || negb (nodupb (map snd (pend m))) = false ->
-  pend (broadcast m i t s) = [] /\
+  pend (broadcast m i t s) = [] /\ dead (broadcast m i t s) = dead m /\
+  (i < length (thr m) -> get (thr (broadcast m i t s)) i = TWait t s) /\
+  (forall j, j <> i -> get (thr (broadcast m i t s)) j = get (thr m) j) /\
+  (forall x, full (broadcast m i t s) x = if existsb (fun e => snd e =? x) (pend m) then Some RFail else full m x) /\
   forall t0 s0, In (t0, s0) (pend m) -> full (broadcast m i t s) s0 = Some RFail.
 Proof.
-  intros Hchk. unfold broadcast. rewrite Hchk. cbn. split; auto.
-  intros t0 s0 Hin.
-  assert (E : existsb (fun e => snd e =? s0) (pend m) = true).
-  { apply existsb_exists. exists (t0, s0). split; auto. apply Nat.eqb_refl. }
-  now rewrite E.
+  intros Hchk. unfold broadcast. rewrite Hchk. cbn. split; auto. split; auto. split.
+  - intros Hr. now apply get_upd_same.
+  - split; [intros j Hj; now apply get_upd_other|]. split; auto.
+    intros t0 s0 Hin.
+    assert (E : existsb (fun e => snd e =? s0) (pend m) = true).
+    { apply existsb_exists. exists (t0, s0). split; auto. apply Nat.eqb_refl. }
+    now rewrite E.
 Qed.
 
-(** ---- every step keeps the invariant (fixed code, honest peer) ---- *)
-Theorem step_inv m a m' : Inv m -> step true true m a = Some m' -> Inv m'.
+Lemma inv_kill m : Inv m -> Inv (mkst (thr m) (pend m) (full m) (token m) (retired m) true).
+Proof. intros HI. destruct HI. constructor; cbn [thr pend full token retired]; auto. Qed.
+
+Lemma inv_setthr m l : Inv (mkst l (pend m) (full m) (token m) (retired m) (dead m)) -> Inv (setthr m l).
+Proof. auto. Qed.
+
+(** ---- every step keeps the invariant: the code as fixed (dca25c9, 79e8d00), ARBITRARY peer ---- *)
+Theorem step_inv m a m' : Inv m -> step true true true m a = Some m' -> Inv m'.
 Proof.
-  intros HI. destruct a as [i t s|i|i|i|i|i|i t' ok|i ok]; cbn [step].
+  intros HI. destruct a as [i t s|i|i|i|i|i|i t' ok|i ok|]; cbn [step].
   - destruct (get (thr m) i) eqn:Hi; try discriminate.
     destruct (i <? length (thr m)) eqn:Hr; cbn [andb]; [|discriminate]. apply Nat.ltb_lt in Hr.
-    destruct (fresh (thr m) t s) eqn:Hf; [|discriminate].
-    intros E; inversion E; subst. now apply step_start.
-  - destruct (get (thr m) i) eqn:Hi; try discriminate. intros E; inversion E; subst.
+    destruct (fresh (thr m) t s) eqn:Hf; cbn [andb]; [|discriminate].
+    destruct (existsb (Nat.eqb s) (retired m)) eqn:Hx; cbn [negb]; [discriminate|].
+    intros E; inversion E; subst. apply step_start; auto.
+    intros Hin. assert (existsb (Nat.eqb s) (retired m) = true); [|congruence].
+    apply existsb_exists. exists s. split; auto. apply Nat.eqb_refl.
+  - destruct (get (thr m) i) eqn:Hi; try discriminate. destruct (dead m); [discriminate|].
+    intros E; inversion E; subst. apply inv_setthr.
     eapply inv_same_live with (x := TReg t s); eauto; try (intros; discriminate).
     + intros Htok. split; [exact (fun f => f)|]. intros j Hj. exfalso. eapply I_tok_free; eauto.
     + intros [].
@@ -509,31 +556,47 @@ Proof.
     + intros _. left. exact I.
   - destruct (get (thr m) i) eqn:Hi; try discriminate. intros E; inversion E; subst.
     eapply broadcast_ok; eauto. exact I.
-  - destruct (get (thr m) i) eqn:Hi; try discriminate.
+  - destruct (get (thr m) i) eqn:Hi; try discriminate. destruct (dead m); [discriminate|].
     destruct (lookup t' (pend m)) as [s'|] eqn:Hl.
     + destruct ok; cbn [negb].
-      * cbn [andb]. destruct (existsb _ (thr m)) eqn:Hex; [discriminate|]. intros E; inversion E; subst.
+      * intros E; inversion E; subst. apply inv_setthr.
         assert (Hh : holder (get (thr m) i)) by (rewrite Hi; exact I).
         eapply inv_same_live with (x := TRecv t s); eauto; try (intros; discriminate).
-        -- intros t0 s0 t1 s1 E1. inversion E1; subst. split; [now apply lookup_In|now apply noreg_spec].
+        -- intros t0 s0 t1 s1 o1 E1. inversion E1; subst. right.
+           pose proof (lookup_In _ _ _ Hl) as Hin. split; auto.
+           destruct (I_pend m HI _ _ Hin) as [_ [j Hj]].
+           rewrite (owner_of_spec (thr m) t1 s1 0 j); auto.
+           intros a b x1 y1 x2 y2 Hab Ha Hb. destruct (I_distinct m HI _ _ _ _ _ _ Hab Ha Hb); auto.
         -- intros Htok. exfalso. eapply I_tok_free; eauto.
         -- intros _ j Hj. eapply I_tok_uniq; eauto.
         -- intros _. left. exact I.
       * intros E; inversion E; subst. eapply broadcast_ok; eauto. exact I.
     + intros E; inversion E; subst. eapply broadcast_ok; eauto. exact I.
   - destruct (get (thr m) i) eqn:Hi; try discriminate. destruct ok.
-    + destruct (step_bodyok _ _ _ _ _ _ HI Hi) as (Hl & He & HI'). rewrite Hl, He. cbn [is_some].
-      intros E; inversion E; subst. exact HI'.
+    + destruct (dead m) eqn:Hd; [discriminate|].
+      pose proof (step_body_drop _ _ _ _ _ _ _ HI Hi) as Hdrop. rewrite Hd in Hdrop.
+      destruct (lookup t' (pend m)) as [s''|] eqn:Hl; cbn [andb].
+      * destruct (Nat.eqb_spec s'' s') as [->|Hne]; cbn [negb].
+        -- destruct (step_body_complete _ _ _ _ _ _ _ HI Hi Hl) as (He & HI'). rewrite He. cbn [is_some].
+           rewrite Hd in HI'. intros E; inversion E; subst. exact HI'.
+        -- intros E; inversion E; subst. exact Hdrop.
+      * intros E; inversion E; subst. exact Hdrop.
     + intros E; inversion E; subst. eapply broadcast_ok; eauto. exact I.
+  - intros E; inversion E; subst. now apply inv_kill.
 Qed.
 
-Theorem reach_inv n m : reach true true n m -> Inv m.
+Theorem reach_inv n m : reach true true true n m -> Inv m.
 Proof. induction 1; [apply inv_init|eapply step_inv; eauto]. Qed.
+
+Lemma run_reach wd k c n tr : forall m m', reach wd k c n m -> run wd k c m tr = Some m' -> reach wd k c n m'.
+Proof.
+  induction tr as [|a r IH]; intros m m' Hm; cbn.
+  - intros E; inversion E; subst; auto.
+  - destruct (step wd k c m a) as [m1|] eqn:Hs; [|discriminate]. apply IH. eapply reach_step; eauto.
+Qed.
 
 (** ---- consequences ---- *)
 
-(** fail-all: a receive error, an unknown tag, a wrong reply type or an undecodable body completes
-    every call pending at that step with an error and empties the pending map; it never blocks *)
 Definition fatal_action (m : mst) (a : action) : Prop :=
   match a with
   | ARecvErr _ => True
@@ -543,31 +606,30 @@ Definition fatal_action (m : mst) (a : action) : Prop :=
   end.
 
 Theorem fail_all n m a m' :
-  reach true true n m -> fatal_action m a -> step true true m a = Some m' ->
+  reach true true true n m -> fatal_action m a -> step true true true m a = Some m' ->
   pend m' = [] /\ forall t0 s0, In (t0, s0) (pend m) -> full m' s0 = Some RFail.
 Proof.
   intros Hre Hf Hs. pose proof (reach_inv _ _ Hre) as HI.
-  destruct a as [i t s|i|i|i|i|i|i t' ok|i ok]; cbn in Hf; try contradiction; cbn [step] in Hs.
+  destruct a as [i t s|i|i|i|i|i|i t' ok|i ok|]; cbn in Hf; try contradiction; cbn [step] in Hs.
   - destruct (get (thr m) i) eqn:Hi; try discriminate. inversion Hs; subst.
-    destruct (broadcast_ok m i t s _ HI Hi I eq_refl) as [Hc _]. now apply broadcast_fails_all.
-  - destruct (get (thr m) i) eqn:Hi; try discriminate.
     destruct (broadcast_ok m i t s _ HI Hi I eq_refl) as [Hc _].
+    destruct (broadcast_fails_all m i t s Hc) as (A & _ & _ & _ & _ & B). auto.
+  - destruct (get (thr m) i) eqn:Hi; try discriminate. destruct (dead m); [discriminate|].
+    destruct (broadcast_ok m i t s _ HI Hi I eq_refl) as [Hc _].
+    destruct (broadcast_fails_all m i t s Hc) as (A & _ & _ & _ & _ & B).
     destruct Hf as [Hn| ->].
-    + rewrite Hn in Hs. inversion Hs; subst. now apply broadcast_fails_all.
-    + destruct (lookup t' (pend m)); cbn in Hs; inversion Hs; subst; now apply broadcast_fails_all.
+    + rewrite Hn in Hs. inversion Hs; subst. auto.
+    + destruct (lookup t' (pend m)); cbn in Hs; inversion Hs; subst; auto.
   - subst ok. destruct (get (thr m) i) eqn:Hi; try discriminate. inversion Hs; subst.
-    destruct (broadcast_ok m i t s _ HI Hi I eq_refl) as [Hc _]. now apply broadcast_fails_all.
+    destruct (broadcast_ok m i t s _ HI Hi I eq_refl) as [Hc _].
+    destruct (broadcast_fails_all m i t s Hc) as (A & _ & _ & _ & _ & B). auto.
 Qed.
 
-(** no-stuck: a caller waiting in waitAndRecv can take its result, or take the token, or the token is
-    held by another call that is inside recv (blocked on the transport only) while this call is
-    still registered.  In particular a call whose reply was consumed (no longer in pending) always
-    finds it in its done channel. *)
 Theorem no_stuck n m i t s :
-  reach true true n m -> get (thr m) i = TWait t s ->
-  (exists r, full m s = Some r /\ routed t s r /\ step true true m (AWaitDone i) <> None) \/
+  reach true true true n m -> get (thr m) i = TWait t s ->
+  (exists r, full m s = Some r /\ routed i t s r /\ step true true true m (AWaitDone i) <> None) \/
   (In (t, s) (pend m) /\ full m s = None /\
-   ((token m = false /\ step true true m (AWaitToken i) <> None) \/
+   ((token m = false /\ step true true true m (AWaitToken i) <> None) \/
     (token m = true /\ exists j, j <> i /\ holder (get (thr m) j)))).
 Proof.
   intros Hre Hi. pose proof (reach_inv _ _ Hre) as HI.
@@ -581,48 +643,143 @@ Proof.
   - left. exists r. split; auto. split; auto. cbn [step]. rewrite Hi, Hf. discriminate.
 Qed.
 
-(** the holder of the token is never stuck inside the client: whatever the transport delivers is a step *)
-Theorem holder_steps wd honest m i :
+(** the holder of the token is never stuck inside the client: a receive error / a failing body read is always a step *)
+Theorem holder_steps wd k c m i :
   holder (get (thr m) i) ->
-  step wd honest m (ARecvErr i) <> None \/ forall ok, step wd honest m (ABody i ok) <> None.
+  step wd k c m (ARecvErr i) <> None \/ step wd k c m (ABody i false) <> None.
 Proof.
   destruct (get (thr m) i) eqn:Hi; cbn; try contradiction; intros _.
   - left. cbn [step]. rewrite Hi. discriminate.
-  - right. intros ok. cbn [step]. rewrite Hi. destruct ok; [|discriminate].
-    destruct (lookup t' (pend m)); [destruct (is_some _)|]; discriminate.
+  - right. cbn [step]. rewrite Hi. discriminate.
 Qed.
 
-(** ---- the model without the withdrawal (dca25c9 reverted): the broadcaster blocks for good ---- *)
+(** ---- later calls fail: once the connection is dead, a call that has not started yet can only return an error ---- *)
+Definition doomed (m : mst) (i : nat) : Prop :=
+  match get (thr m) i with
+  | TIdle => True
+  | TReg _ s | TWait _ s | TRecv _ s => full m s = None \/ full m s = Some RFail
+  | TDone _ _ r => r = RFail
+  | _ => False
+  end.
+
+Lemma doomed_step m a m' i :
+  Inv m -> dead m = true -> doomed m i -> step true true true m a = Some m' ->
+  dead m' = true /\ doomed m' i.
+Proof.
+  intros HI Hd Hdm Hs. unfold doomed in *.
+  assert (Hbc : forall j t s x, get (thr m) j = x -> holder x -> live x = Some (t, s) ->
+            dead (broadcast m j t s) = true /\
+            match get (thr (broadcast m j t s)) i with
+            | TIdle => True
+            | TReg _ s0 | TWait _ s0 | TRecv _ s0 =>
+                full (broadcast m j t s) s0 = None \/ full (broadcast m j t s) s0 = Some RFail
+            | TDone _ _ r => r = RFail
+            | _ => False
+            end).
+  { intros j t s x Hj Hh Hl. destruct (broadcast_ok m j t s x HI Hj Hh Hl) as [Hc _].
+    destruct (broadcast_fails_all m j t s Hc) as (_ & Hdd & Hsame & Hoth & Hfull & _).
+    split; [congruence|].
+    assert (Hr : j < length (thr m)) by (apply get_in_range; rewrite Hj; eapply live_not_idle; eauto).
+    destruct (Nat.eq_dec i j) as [->|Hne].
+    - rewrite Hsame by auto. rewrite Hfull.
+      rewrite Hj in Hdm. destruct x; cbn in Hl, Hh, Hdm; try contradiction; inversion Hl; subst.
+      destruct (existsb (fun e : nat * nat => snd e =? s) (pend m)); auto.
+    - rewrite Hoth by auto.
+      destruct (get (thr m) i) as [|? s0|? s0|? s0| | | |]; auto; rewrite Hfull;
+        destruct (existsb (fun e : nat * nat => snd e =? s0) (pend m)); auto. }
+  assert (Hfs : forall x s0, (full m x = None \/ full m x = Some RFail) ->
+            (fset (full m) s0 None x = None \/ fset (full m) s0 None x = Some RFail)).
+  { intros x s0 H. unfold fset. destruct (x =? s0); auto. }
+  destruct a as [j t s|j|j|j|j|j|j t' ok|j ok|]; cbn [step] in Hs.
+  - destruct (get (thr m) j) eqn:Hj; try discriminate.
+    destruct ((j <? length (thr m)) && fresh (thr m) t s && negb (existsb (Nat.eqb s) (retired m))) eqn:Hc; [|discriminate].
+    inversion Hs; subst; clear Hs. cbn [dead thr full]. split; auto.
+    apply andb_true_iff in Hc. destruct Hc as [Hc _]. apply andb_true_iff in Hc. destruct Hc as [Hr Hf].
+    apply Nat.ltb_lt in Hr. rewrite get_upd by auto. destruct (Nat.eqb_spec i j) as [->|]; auto.
+    left. rewrite fresh_spec in Hf. destruct (full m s) eqn:E; auto.
+    destruct (I_full m HI _ _ E) as (k & t0 & B). destruct (Hf _ _ _ B); congruence.
+  - destruct (get (thr m) j) eqn:Hj; try discriminate. rewrite Hd in Hs. discriminate.
+  - destruct (get (thr m) j) eqn:Hj; try discriminate. inversion Hs; subst; clear Hs. cbn [dead thr full]. split; auto.
+    assert (Hr : j < length (thr m)) by (apply get_in_range; rewrite Hj; discriminate).
+    rewrite get_upd by auto. destruct (Nat.eqb_spec i j) as [->|]; auto.
+    destruct (get (thr m) i); auto.
+  - destruct (get (thr m) j) eqn:Hj; try discriminate. destruct (full m s) eqn:Hf; [|discriminate].
+    inversion Hs; subst; clear Hs. cbn [dead thr full]. split; auto.
+    assert (Hr : j < length (thr m)) by (apply get_in_range; rewrite Hj; discriminate).
+    rewrite get_upd by auto. destruct (Nat.eqb_spec i j) as [->|].
+    + rewrite Hj in Hdm. destruct Hdm; congruence.
+    + destruct (get (thr m) i); auto.
+  - destruct (get (thr m) j) eqn:Hj; try discriminate.
+    destruct (negb (token m) && negb (is_some (full m s))) eqn:Hc; [|discriminate].
+    inversion Hs; subst; clear Hs. cbn [dead thr full]. split; auto.
+    assert (Hr : j < length (thr m)) by (apply get_in_range; rewrite Hj; discriminate).
+    rewrite get_upd by auto. destruct (Nat.eqb_spec i j) as [->|]; auto. now rewrite Hj in Hdm.
+  - destruct (get (thr m) j) eqn:Hj; try discriminate. inversion Hs; subst. eapply Hbc; eauto. exact I.
+  - destruct (get (thr m) j) eqn:Hj; try discriminate. rewrite Hd in Hs. discriminate.
+  - destruct (get (thr m) j) eqn:Hj; try discriminate. destruct ok.
+    + rewrite Hd in Hs. discriminate.
+    + inversion Hs; subst. eapply Hbc; eauto. exact I.
+  - inversion Hs; subst. cbn [dead thr full]. auto.
+Qed.
+
+Theorem later_fail n m i : reach true true true n m -> dead m = true -> get (thr m) i = TIdle ->
+  forall tr m' t s r, run true true true m tr = Some m' -> get (thr m') i = TDone t s r -> r = RFail.
+Proof.
+  intros Hre Hd Hi tr.
+  assert (Hdm : doomed m i) by (unfold doomed; now rewrite Hi).
+  pose proof (reach_inv _ _ Hre) as HI. clear Hre Hi.
+  revert m Hd Hdm HI. induction tr as [|a r IH]; intros m Hd Hdm HI m' t s r0; cbn.
+  - intros E; inversion E; subst. intros Hdone. unfold doomed in Hdm. now rewrite Hdone in Hdm.
+  - destruct (step true true true m a) as [m1|] eqn:Hs; [|discriminate].
+    destruct (doomed_step _ _ _ _ HI Hd Hdm Hs) as [Hd1 Hdm1].
+    apply IH; auto. eapply step_inv; eauto.
+Qed.
+
+(** once dead, always dead; and a dead connection delivers nothing *)
+Lemma dead_forever wd k c m a m' : dead m = true -> step wd k c m a = Some m' -> dead m' = true.
+Proof.
+  intros Hd. destruct a; cbn [step];
+    repeat match goal with
+           | |- context [match ?x with _ => _ end] => destruct x eqn:?; try discriminate
+           end; intros E; inversion E; subst; auto; unfold broadcast, setthr;
+    repeat match goal with
+           | |- context [if ?x then _ else _] => destruct x
+           end; cbn; auto; congruence.
+Qed.
+
+(** ---- refutations: each of the three fixes is needed ---- *)
+
+(** dca25c9 reverted (no withdrawal): the broadcaster blocks for good on a recycled slot *)
 Definition trace_stale : list action :=
-  [AStart 0 1 0; ASendFail 0;            (* call 0: send fails, entry (1 -> slot 0) stays, slot 0 goes back to the pool *)
-   AStart 1 2 0; ASendOk 1;              (* call 1 gets the recycled slot 0 *)
-   AWaitToken 1; ARecvErr 1].            (* connection error: two sends on slot 0's done channel *)
+  [AStart 0 1 0; ASendFail 0; AStart 1 2 0; ASendOk 1; AWaitToken 1; ARecvErr 1].
 
 Lemma stale_blocks :
-  exists m, run false true (init 2) trace_stale = Some m /\ get (thr m) 1 = TBlocked.
+  exists m, run false false true (init 2) trace_stale = Some m /\ get (thr m) 1 = TBlocked.
 Proof. eexists. split; [vm_compute; reflexivity|reflexivity]. Qed.
 
-Lemma stale_fixed :
-  exists m, run true true (init 2) trace_stale = Some m /\ get (thr m) 1 = TWait 2 0 /\ full m 0 = Some RFail.
-Proof. eexists. split; [vm_compute; reflexivity|split; reflexivity]. Qed.
-
-(** ---- a reply for a tag whose request is just failing to be sent (peer not [honest]) ---- *)
+(** 79e8d00 reverted (handleOne does not re-check): a reply for a tag whose send is failing: nil *response *)
 Definition trace_race : list action :=
   [AStart 0 1 0; AStart 1 2 1; ASendOk 1; AWaitToken 1;
    AFrame 1 1 true;      (* header of a reply carrying call 0's tag: lookup finds call 0's slot *)
    ASendFail 0;          (* call 0's send fails: it withdraws its entry *)
-   ABody 1 true].        (* completion re-reads pending[1]: nil *response *)
+   ABody 1 true].        (* completion re-reads pending[1] *)
 
 Lemma race_panics :
-  exists m, run true false (init 2) trace_race = Some m /\ get (thr m) 1 = TPanic.
+  exists m, run true false false (init 2) trace_race = Some m /\ get (thr m) 1 = TPanic.
 Proof. eexists. split; [vm_compute; reflexivity|reflexivity]. Qed.
 
-Lemma race_excluded_when_honest : run true true (init 2) trace_race = None.
-Proof. vm_compute. reflexivity. Qed.
+(** with the fix the frame is dropped and the receiver goes on *)
+Lemma race_dropped :
+  exists m, run true true true (init 2) trace_race = Some m /\ get (thr m) 1 = TWait 2 1 /\
+            get (thr m) 0 = TDone 1 0 RFail /\ token m = false.
+Proof. eexists. split; [vm_compute; reflexivity|repeat split]. Qed.
 
-Lemma run_reach wd h n tr : forall m m', reach wd h n m -> run wd h m tr = Some m' -> reach wd h n m'.
-Proof.
-  induction tr as [|a r IH]; intros m m' Hm; cbn.
-  - intros E; inversion E; subst; auto.
-  - destruct (step wd h m a) as [m1|] eqn:Hs; [|discriminate]. apply IH. eapply reach_step; eauto.
-Qed.
+(** the re-check alone, with the withdrawn slot recycled: a new call that got the same tag and the same
+    slot is completed with a reply decoded into the old call's message *)
+Definition trace_aba : list action :=
+  [AStart 0 1 0; AStart 1 2 1; ASendOk 1; AWaitToken 1; AFrame 1 1 true; ASendFail 0;
+   AStart 2 1 0; ASendOk 2; ABody 1 true; AWaitDone 2].
+
+Lemma aba_foreign :
+  exists m, run true false true (init 3) trace_aba = Some m /\ get (thr m) 2 = TDone 1 0 (ROk 1 0 0).
+Proof. eexists. split; [vm_compute; reflexivity|reflexivity]. Qed.
